@@ -104,6 +104,8 @@ def arr_of(obj):
 
 
 def close(a, b):
+    if a.size == 0 and b.size == 0:
+        return a.ndim == b.ndim          # empty selections: nothing to compare but the rank
     return a.shape == b.shape and np.allclose(a, b, rtol=1e-5, atol=1e-6, equal_nan=True)
 
 
@@ -126,7 +128,8 @@ def apply_op(obj, op):
     if k == "reduce":
         fn = op["fn"] if not (np.iscomplexobj(a0) and op["fn"] == "max") else "sum"
         ax = op["axis"]
-        return getattr(obj, fn)(axis=ax), getattr(np, fn)(a0, axis=ax)
+        kd = bool(op.get("keepdims", False))
+        return getattr(obj, fn)(axis=ax, keepdims=kd), getattr(np, fn)(a0, axis=ax, keepdims=kd)
     if k == "stack":
         new = abtem.stack([obj, obj], axis_metadata=OrdinalAxis(label="stk", values=("a", "b")), axis=op["pos"])
         return new, np.stack([a0, a0], axis=op["pos"])
@@ -166,7 +169,7 @@ def reference_raises(obj, op):
             r = a[items]
         elif k == "reduce":
             fn = op["fn"] if not (np.iscomplexobj(np.zeros(1, a.dtype)) and op["fn"] == "max") else "sum"
-            r = getattr(a, fn)(axis=op["axis"])
+            r = getattr(a, fn)(axis=op["axis"], keepdims=bool(op.get("keepdims", False)))
         else:
             return False
         if hasattr(r, "compute"):
@@ -205,6 +208,10 @@ def tags_for(t, bad):
     line, clauses = bad[0]
     op = t[line - 1]["op"]
     d = {"clauses": sorted(clauses), "op": op["k"], "typ": t[0].get("typ"), "lazy": t[0].get("lazy")}
+    if op["k"] == "reduce":
+        pre = t[line - 2]["axes"] if line >= 2 else []
+        ax = op["axis"]
+        d["keepdims_on_ordinal"] = bool(op.get("keepdims")) and 0 <= ax < len(pre) and pre[ax]["kind"] == "ordinal"
     if op["k"] == "arith":
         d["fn"] = op["fn"]
         d["other"] = op["other"]
